@@ -8,7 +8,7 @@ MODULES = ["WowSrp.Props.C08", "WowSrp.Props.Source.C08"]
 THEOREMS = ["C08_constants", "C08_seed_same", "C08_seed_value", "C08_key_derivation", "C08_keys_equal", "C08_fresh_inv", "C08_step_bounds", "C08_recurrence", "C08_recurrence_vanilla", "C08_chunking", "C08_empty_call", "C08_inverse_step", "C08_roundtrip", "C08_source_layout"]
 RULE = ("as C07 with the TBC objects: streams under random/special 40-byte session keys, random partitions on both sides; the encrypter half and "
         "the decrypter half derive their keys separately in the Rust, so mutually inverse traffic from byte 0 checks both derivations; the "
-        "ciphertext is compared with an independent HMAC-SHA1(seed, K) + recurrence. distinct = distinct lines; non-trivial = stream length >= 1")
+        "ciphertext is compared with an independent HMAC-SHA1(seed, K) + recurrence; mixed sessions drive one object through every entry point and object form (typed helpers, Read/Write wrappers, split, clone) in random order. distinct = distinct lines; non-trivial = stream length >= 1")
 EXPLANATION = "theorems (both halves use the same generated seed; key = HMAC(seed, K); recurrence over 20 bytes = Spec; chunking; exact inverse; round trip) + differential run + Python oracle"
 ASSUMPTIONS = ["HMAC-SHA1 abstract in the theorems (any C with 20-byte output), real in the runs"]
 
@@ -27,6 +27,8 @@ def generate(rng, tier):
             cs.append(session_case(rng, special_key(rng), rbytes(rng, 1 << 20), "1MiB-stream", "t"))
     cs += sibling_key_cases(rng, "t")
     cs += typed_at_every_position_cases(rng, "t")
+    import hdr_mix
+    cs += hdr_mix.cases(rng, Case, [("t", "s"), ("t", "c")], 100 if tier == "quick" else 3000, 90, special_key=special_key)
     if tier == "thorough":
         cs += step_table_cases(rng, "t")
     return cs
